@@ -270,15 +270,27 @@ func main() {
 	})
 
 	// ---- type identity of included messages
+	// The group comments of the generated dialect.go files are only a hint: a comment counts as
+	// an include group when it is exactly the name of a shipped dialect package; any other
+	// wording leaves the entry to the comment-independent (name, id) comparison below.
+	knownPkg := map[string]bool{}
+	for _, nd := range gm.Dialects {
+		knownPkg[nd.Name] = true
+	}
+	for i := range enumreg.Entries {
+		if !knownPkg[enumreg.Entries[i].Group] {
+			enumreg.Entries[i].Group = ""
+		}
+	}
 	groupsSeen := 0
 	for _, e := range enumreg.Entries {
 		t := reflect.TypeOf(e.Msg).Elem()
 		pkg := t.PkgPath()[strings.LastIndex(t.PkgPath(), "/")+1:]
 		evals.Add(1)
-		groupsSeen++
 		if e.Group == "" {
 			continue // no group comment: decided by the (name, id) comparison below
 		}
+		groupsSeen++
 		if pkg != e.Group {
 			failS("identity", e.Dialect+"."+t.Name(), fmt.Sprintf("dialect %s lists %s under group %q but its Go type is declared in package %s: not the same type as %s.%s", e.Dialect, t.Name(), e.Group, pkg, e.Group, t.Name()))
 		}
@@ -313,6 +325,9 @@ func main() {
 	}
 	idType := map[gk]reflect.Type{}
 	for _, e := range enumreg.Entries {
+		if e.Group == "" {
+			continue
+		}
 		k := gk{e.Group, e.Msg.GetID()}
 		t := reflect.TypeOf(e.Msg)
 		if prev, ok := idType[k]; ok && prev != t {
